@@ -28,7 +28,7 @@ func init() {
 			return 1800
 		},
 		Batch: func(t string) int { return 30 },
-		Floors: []string{"comparisons", "path_verbatim_copy", "path_column_reencode", "path_row", "source_file", "source_buffer", "source_range_view", "source_multi", "source_merged", "source_dedup", "source_foreign_reversed", "source_converted", "source_merged_wrapped", "wrapped_dedup_input", "wrapped_foreign_input",
+		Floors: []string{"comparisons", "path_verbatim_copy", "path_column_reencode", "path_row", "source_file", "source_buffer", "source_range_view", "source_multi", "source_merged", "source_dedup", "source_foreign_reversed", "source_converted", "source_merged_wrapped", "wrapped_dedup_input", "wrapped_foreign_input", "pending_rows_before_write_rowgroup",
 			"dst_same_config", "dst_other_codec", "dst_other_version", "dst_other_encoding", "dst_small_pages", "dst_maxrows", "dst_bloom", "settings_checked"},
 		Rule: "case = (source row group among: file row group, buffer, row-range view, MultiRowGroup, merged (overlapping or not), dedup wrapper, converted, and a foreign RowGroup implementation whose Rows() reverses the rows; source writer config from the option matrix; " +
 			"destination config equal to the source or with one setting changed: codec, page version, default encoding, page size, MaxRowsPerRowGroup, bloom filters). File A = dst.WriteRowGroup(src); the rows of A (library reader and independent decoder) must equal src.Rows() as read before, " +
@@ -308,6 +308,27 @@ func runC11(c *Ctx) {
 		c.Fail("harness.source", keys, "reading the %s source rows: %v", srcKind, err)
 		return
 	}
+	// a quarter of the time the destination writer still buffers rows of earlier Write calls:
+	// they come first in the file, the row group follows
+	var pending []parquet.Row
+	if r.P(25) {
+		k := 1 + r.Intn(30)
+		if k > n {
+			k = n
+		}
+		for i := 0; i < k; i++ {
+			pending = append(pending, schema.Deconstruct(nil, rows.Index(i).Interface()))
+		}
+		if (srcKind == "multi" || srcKind == "merged" || srcKind == "merged_wrapped") && dstKind != "maxrows" && len(expected) > 0 && int64(len(expected)) < exp.maxRows {
+			// a row-group limit that the source's segments fit under exactly: the buffered rows must not end up in the same row group
+			exp.maxRows = int64(len(expected))
+			dstOpts = append(dstOpts, parquet.MaxRowsPerRowGroup(exp.maxRows))
+			c.Obs("pending_rows_with_tight_rowgroup_limit", 1)
+		}
+		expected = append(append([]parquet.Row{}, pending...), expected...)
+		c.D("pending_rows", k)
+		c.Obs("pending_rows_before_write_rowgroup", 1)
+	}
 	want := model.RowsToStreams(expected, numLeaves(schema))
 
 	// ---- A: WriteRowGroup
@@ -316,6 +337,11 @@ func runC11(c *Ctx) {
 	var werr error
 	if c.guard("c11.panic", keys, func() {
 		w := parquet.NewWriter(&bufA, append([]parquet.WriterOption{schema}, dstOpts...)...)
+		if len(pending) > 0 {
+			if _, werr = w.WriteRows(pending); werr != nil {
+				return
+			}
+		}
 		if _, werr = w.WriteRowGroup(src); werr != nil {
 			return
 		}
